@@ -15,18 +15,21 @@ _VSTART = {}
 
 
 def validation_start(n):
-    """round at which StroquOOL's cross-validation begins for budget n (dry run on [0,1], the schedule is reward independent)"""
+    """(round at which StroquOOL's cross-validation begins, h_max) for budget n, from the schedule of StroquOOL.tla
+    (TotalCost without the validation part) -- computed, not observed: the library is not run to build inputs"""
     if n not in _VSTART:
-        from PyXAB.algos.StroquOOL import StroquOOL
-        a = StroquOOL(n=n, domain=[[0.0, 1.0]])
-        t0 = None
-        for t in range(1, n + 1):
-            a.pull(t)
-            if a.candidate and t0 is None:
-                t0 = t
-                break
-            a.receive_reward(t, 0.5)
-        _VSTART[n] = (t0, a.h_max)
+        from decimal import Decimal
+        from .. import consts as K
+        hs = sum(Decimal(1) / i for i in range(1, n + 1))
+        hmax = K.dfloor(Decimal(n) / (2 * (hs + 1) ** 2))
+        if hmax < 1:
+            _VSTART[n] = (None, hmax)
+        else:
+            cost = 2 * hmax
+            for d in range(1, hmax + 1):
+                P = (hmax // d).bit_length() - 1
+                cost += 2 ** (P + 2) - 2
+            _VSTART[n] = (cost + 1, hmax)
     return _VSTART[n]
 
 
